@@ -6,6 +6,11 @@
   All theorems here are PER INSTANCE (kernel-evaluated closure of the reachable set, every
   schedule of every length); more instances in Props/C16_v2_a.lean, Props/C16_v2_b.lean.
   ASSUMED: the operations of atomic_intrusive_list are linearizable (they are single steps here).
+
+  The model follows the repaired event (tools/checks/c16_repair.patch: stop() sets `cancelled_` and
+  goes through the same unstoppable reschedule as set_value), so `completion_on_waiters_scheduler`
+  (`affine`) is part of EVERY instance theorem, cancellation included.  The scenario monitor for it
+  stays armed: on a tree without the repair `./check C16` reports a VIOLATION.
 -/
 import UnifexModel.Proto.EventV2
 import UnifexModel.Lemmas.ReflectFast
@@ -15,7 +20,10 @@ open Unifex.Core Unifex.Proto.EventV2
 
 /-- What `safe` says, spelled out. -/
 theorem v2_safe_spelled (cfg : Config) (s : St) (h : safe cfg s = true) :
-    -- nobody completed twice, with value without a set(), or with done without a stop request
+    -- nobody completed twice, with value without a set(), with done without a stop request, with
+    -- value after a stop() had removed it from the list (a waiter that won the cancel race never gets
+    -- value), or with done without such a removal; the operation state is never accessed after its
+    -- completion was delivered
     s.bad = 0
     ∧ (∀ w ∈ s.ws, w.count ≤ 1)
     -- no deadlock (covers: destroying a stop callback that runs elsewhere, the sync_complete spin)
@@ -40,30 +48,31 @@ theorem v2_safe_spelled (cfg : Config) (s : St) (h : safe cfg s = true) :
     thread (`completion_on_waiters_scheduler` for value completions). -/
 theorem v2_two_waiters_safe_inst :
     ∀ s, Reach (sys cfgTwoWaiters) s → (safe cfgTwoWaiters s && affine s) = true :=
-  safe_of_checkC _ { coded with M := 601, W := 224 } 400 _ (by decide +kernel)
+  safe_of_checkC _ { coded with M := 601, W := 240 } 400 _ (by decide +kernel)
 
 /-- one cancellable waiter, stop request vs start, final set(): `safe` (exactly one completion,
-    value only after a set, done only after a stop request, no deadlock). -/
-theorem v2_cancel_safe_inst : ∀ s, Reach (sys cfgCancel) s → safe cfgCancel s = true :=
+    value only after a set, done only after a stop request that removed the waiter, no access to
+    the operation after completion, no deadlock) and `completion_on_waiters_scheduler`: the
+    set_done of the cancelled wait runs on the waiter's own scheduler thread, like set_value. -/
+theorem v2_cancel_safe_inst : ∀ s, Reach (sys cfgCancel) s → (safe cfgCancel s && affine s) = true :=
   safe_of_checkC _ { coded with M := 431, W := 192 } 400 _ (by decide +kernel)
 
-/-- `completion_on_waiters_scheduler` does NOT hold for cancellation, as the code stands: in the
-    cancel instance a final state is reachable in which the waiter's set_done ran on the thread that
-    called request_stop() (stop() completes inline after try_remove; only set_value is rescheduled),
-    although the sender advertises `is_always_scheduler_affine`. -/
-def v2OffThreadWitness : List Nat := [0, 0, 0, 0, 0, 0, 0, 0, 0, 0, 0, 0, 0, 0, 0, 0, 0, 0]
+/-- non-vacuity: the cancellation can win — a final state in which a stop() removed the waiter and
+    it completed with done (on its own thread, by `v2_cancel_safe_inst`). -/
+def v2CancelWitness : List Nat := [0, 1, 1, 0, 0, 0, 0, 0, 0, 0, 0, 0, 0, 0, 0, 0, 0]
 
-theorem v2_done_off_waiters_scheduler_witness :
-    ∃ s, Reach (sys cfgCancel) s ∧ final cfgCancel s = true ∧ affine s = false := by
-  have h : (match runChoices (sys cfgCancel) (sys cfgCancel).init v2OffThreadWitness with
-      | some (_, s) => final cfgCancel s && !affine s | none => false) = true := by
+example : ∃ s, Reach (sys cfgCancel) s ∧ final cfgCancel s = true ∧ (getW s 0).outcome = 2 ∧
+    (getW s 0).removed = true := by
+  have h : (match runChoices (sys cfgCancel) (sys cfgCancel).init v2CancelWitness with
+      | some (_, s) => final cfgCancel s && decide ((getW s 0).outcome = 2) && (getW s 0).removed
+      | none => false) = true := by
     decide +kernel
-  cases hr : runChoices (sys cfgCancel) (sys cfgCancel).init v2OffThreadWitness with
+  cases hr : runChoices (sys cfgCancel) (sys cfgCancel).init v2CancelWitness with
   | none => simp [hr] at h
   | some p =>
     obtain ⟨ls, s⟩ := p
-    simp only [hr, Bool.and_eq_true, Bool.not_eq_true'] at h
-    exact ⟨s, runChoices_reach _ _ _ _ _ Reach.init hr, h.1, h.2⟩
+    simp only [hr, Bool.and_eq_true, decide_eq_true_eq] at h
+    exact ⟨s, runChoices_reach _ _ _ _ _ Reach.init hr, h.1.1, h.1.2, h.2⟩
 
 /-- non-vacuity: both waiters can be enqueued first and then completed with value by the set() -/
 def v2Witness : List Nat := [0, 1, 2, 2, 0, 0, 0, 0, 0, 0, 0, 0, 0, 0, 0]
